@@ -35,6 +35,13 @@ func main() {
 			die(err)
 		}
 		write("Pmath.lean", s)
+	case "routing":
+		rel := "transport/buffered.go"
+		s, err := extractRouting(filepath.Join(repo, rel), rel)
+		if err != nil {
+			die(err)
+		}
+		write("Routing.lean", s)
 	default:
 		die(fmt.Errorf("unknown target %q", what))
 	}
